@@ -72,6 +72,7 @@ type Lemma struct {
 	Text  string
 	Loc   string
 	Vars  string
+	Uses  []ast.Expr // instances `lemmaName(e1, e2, ...)` of other lemmas, assumed (those lemmas are proved in the same run)
 }
 
 var propRe = regexp.MustCompile(`^\[((?:C\d+[ ,]*)+)\]\s*`)
@@ -340,12 +341,24 @@ func (w *World) parseContractLines(lines []string, locs []string, pkgRel string,
 				vars = headS[op+1 : cp]
 				headS = headS[:op] + " " + headS[cp+1:]
 			}
+			// optional: uses l1(args), l2(args)
+			var uses []ast.Expr
+			if ui := strings.Index(headS, " uses "); ui >= 0 {
+				for _, u := range splitTop(headS[ui+6:], ',') {
+					ue, err := parseSpecExpr(strings.TrimSpace(u))
+					if err != nil {
+						return fmt.Errorf("%s: lemma uses %q: %v", loc, u, err)
+					}
+					uses = append(uses, ue)
+				}
+				headS = headS[:ui]
+			}
 			head := strings.Fields(headS)
 			cl, err := mkClause(rest[ci+1:], loc)
 			if err != nil {
 				return err
 			}
-			lm := &Lemma{Name: head[0], Expr: cl.Expr, Text: cl.Text, Loc: loc, Props: cl.Props, Vars: vars}
+			lm := &Lemma{Name: head[0], Expr: cl.Expr, Text: cl.Text, Loc: loc, Props: cl.Props, Vars: vars, Uses: uses}
 			for _, h := range head[1:] {
 				for _, p := range strings.FieldsFunc(strings.Trim(h, "[]"), func(r rune) bool { return r == ',' }) {
 					lm.Props = append(lm.Props, p)
